@@ -23,6 +23,7 @@ ASSUMPTIONS = [
     "points exactly on a bin edge (incl. x == xmax) may go to either neighbouring bin / in or out",
     "explicit limits are python floats, as the signature documents; integer-valued layer data makes sums exact",
     "thread schedules are sampled (thread count x permutation x repetition), not enumerated",
+    "coordinates are 0 or at least 1e-300 in magnitude (no denormals); grids with bins narrower than 256 ulp are not judged",
 ]
 osyris = None
 numba = None
@@ -87,6 +88,7 @@ def _axis(rng, n, res, lo, span, log, p_out, p_edge, p_special, one_bin):
     ulp = rng.random_sample(n) < p_edge
     choices = np.array([lower, np.nextafter(lower, np.inf), np.nextafter(upper, -np.inf),
                         np.nextafter(np.nextafter(upper, -np.inf), -np.inf), upper, np.nextafter(lower, -np.inf)])
+    choices = np.where(np.abs(choices) < 1e-300, 0.0, choices)        # no denormals: |x| >= 1e-300 or exactly 0
     x = np.where(ulp, rng.choice(choices, size=n), x)
     sp = rng.random_sample(n) < p_special
     x = np.where(sp, rng.choice([np.nan, np.inf, -np.inf], size=n), x)
@@ -154,10 +156,13 @@ def _expected(tx, ty, res, values, epsx=0.0, epsy=0.0):
         np.add.at(sums[k], (iy[inr].astype(int), ix[inr].astype(int)), v[inr])
     loose = np.zeros((res, res), dtype=np.int64)
     for i in np.nonzero(tol)[0]:
-        cells = {(a, b) for a in (ax0[i], ax1[i]) for b in (ay0[i], ay1[i])}
-        for a, b in cells:
-            if 0 <= a < res and 0 <= b < res:
-                loose[int(b), int(a)] += 1
+        # every cell between the two extreme assignments is admissible
+        a0, a1 = int(max(ax0[i], -1)), int(min(ax1[i], res))
+        b0, b1 = int(max(ay0[i], -1)), int(min(ay1[i], res))
+        for a in range(a0, a1 + 1):
+            for b in range(b0, b1 + 1):
+                if 0 <= a < res and 0 <= b < res:
+                    loose[b, a] += 1
     return counts, loose, int(tol.sum()), sums
 
 
@@ -286,6 +291,14 @@ def binning(case, r):
             if not (lo_n <= tot <= hi_n):
                 r.bad(["auto-single-bin-count"], f"count {tot}, expected {lo_n}..{hi_n} finite in-range points")
         return
+    # a grid whose bins are narrower than the float resolution of the coordinates (automatic limits around
+    # points that differ by a few ulp) cannot be judged
+    for e, lg in ((ex, logx), (ey, logy)):
+        ee = np.log10(e) if lg else e
+        w = abs(ee[-1] - ee[0]) / res
+        if not np.isfinite(w) or w < 256 * np.spacing(max(abs(ee[0]), abs(ee[-1]))):
+            r.label("skipped_grid_below_float_resolution")
+            return
     tx = _frac_coord(x, ex, logx)
     ty = _frac_coord(y, ey, logy)
     # automatic limits must contain every finite point
